@@ -539,7 +539,10 @@ def anon_documents():
           T_(["E", "*", "b+", "c-", "8", "10$", "8", "10$", "*"]),
           T_(["E", "*", "c-", "a+", "0", "2", "0", "2", "*"]),
           T_(["E", "*", "a+", "a-", "8", "10$", "8", "10$", "*"]),   # hairpin
-          T_(["E", "e9", "a-", "b-", "0", "2", "8", "10$", "*"])]    # named
+          T_(["E", "e9", "a-", "b-", "0", "2", "8", "10$", "*"]),    # named
+          # field-for-field identical twins are still two edges
+          T_(["E", "*", "a+", "b+", "8", "10$", "0", "2", "*"]),
+          T_(["E", "*", "b+", "c-", "8", "10$", "8", "10$", "*"])]
   groups = [[T_(["U", "u", "a b c"])], [T_(["U", "u", "a b"])],
             [T_(["U", "v", "a"]), T_(["U", "u", "v b c"])],
             [T_(["O", "o", "a+ b+"]), T_(["U", "u", "o c"])]]
